@@ -320,7 +320,7 @@ def r3(ctx: Ctx) -> None:
                 ctx.holds(f, w.node, construct, expected="helper of an allowed writer", found="inlined into its caller (ordering checked there)")
                 continue
             ctx.violated(f, w.node, construct, "only Order.__init__, Market._add_order/OrderBook.add (before insertion) and order-before hooks write sort keys",
-                         f"{q} writes Order.{attr}")
+                         f"{q} writes Order.{attr}", guard="site")
 
 
 # ----------------------------------------------------------------------------- consumption in pop order
